@@ -564,12 +564,11 @@ NONFUNC = [('number', 5), ('float', 0.5), ('string', 'str'), ('array', [1]), ('o
 
 
 def model_cases():
-    """Deterministic list of (label, model, options-extras, expectation) - expectation in
-    {'value', 'runtime', 'parser', 'any'} is only used to measure non-triviality, never as an oracle."""
+    """Deterministic list of (label, model, options-extras, expectation). The expectation ('value', 'runtime', 'parser',
+    'any') documents what the model is meant to exercise; it is never used as an oracle."""
     if 'models' in _CACHE:
         return _CACHE['models']
     out = []
-    ret_ff = {'return': {'expr': _call('ff', [_num(1), _num(2)])}}
     out.append(('empty script', {'statements': []}, {}, 'value'))
     out.append(('return without expr', {'statements': [{'return': {}}]}, {}, 'value'))
     out.append(('expr statement without name', {'statements': [{'expr': {'expr': _num(1)}}]}, {}, 'value'))
@@ -597,7 +596,6 @@ def model_cases():
             exp = 'runtime' if 'unknown label' in lab else 'any'
             out.append((f'{lab}, {clab}', {'statements': [{'function': fn}, {'expr': {'name': 'rr', 'expr': call}}, _sentinel(),
                                                              {'return': {'expr': _var('rr')}}]}, {}, exp))
-    _ = ret_ff
     # non-function values in call position: global and local, with and without args
     for lab, val in NONFUNC:
         for clab, call in (('with args', _call('xx', [_num(1)])), ('without args member', _call('xx'))):
@@ -641,13 +639,11 @@ INCLUDE_TEXTS = {
 
 
 def model_options(extra, logs):
-    hv = None
     opts = {'logFn': logs.append, 'debug': True, 'maxStatements': extra.get('maxStatements', 1000)}
     g = {}
     if 'hv' in extra:
         lab = extra['hv']
-        hv = selfarr() if lab == 'selfarr' else copy.deepcopy(dict(NONFUNC)[lab])
-        g['hv'] = hv
+        g['hv'] = selfarr() if lab == 'selfarr' else copy.deepcopy(dict(NONFUNC)[lab])
     opts['globals'] = g
     if 'systemPrefix' in extra:
         opts['systemPrefix'] = extra['systemPrefix']
@@ -663,10 +659,10 @@ def model_options(extra, logs):
 
 
 def check_models(case, acc):
-    bs, funcs = impl()
+    bs = impl()[0]
     kind = case['kind']
     if kind == 'hand':
-        label, model, extra, exp = model_cases()[case['m']]
+        label, model, extra, _ = model_cases()[case['m']]
         model = copy.deepcopy(model)
     else:
         # every library function called without an args member, in one of three call shapes
@@ -675,7 +671,6 @@ def check_models(case, acc):
         shape = case['shape']
         label = f'{fid} called without an args member ({shape})'
         extra = {'fetch': None}
-        exp = 'any'
         call = _call(name)
         if shape == 'top':
             model = {'statements': [{'expr': {'name': 'rr', 'expr': call}}, _sentinel(), {'return': {'expr': _var('rr')}}]}
@@ -685,7 +680,6 @@ def check_models(case, acc):
         else:
             model = {'statements': [{'expr': {'name': 'rr', 'expr': _call('arrayNew', [call, {'unary': {'op': '-', 'expr': call}}])}}, _sentinel(),
                                     {'return': {'expr': _var('rr')}}]}
-        _ = funcs
     case = dict(case, label=label)
     try:
         bs.validate_script(copy.deepcopy(model))
@@ -717,7 +711,6 @@ def check_models(case, acc):
                 return 'violation'
     if out[0] == 'doc' or any('failed with error' in str(x) for x in logs):
         acc.nontrivial += 1
-    _ = exp
     return out[0] + ':' + (out[1] if out[0] != 'value' else value_kind(out[1]))
 
 
